@@ -93,6 +93,9 @@ impl RemoteRateLoader for MockRemote {
 
 struct FakeHttp {
     bodies: HashMap<u32, String>,
+    // (series, year) -> body. When present, the requested series matters, like with the
+    // real Bank of Canada API; a (series, year) without data answers with no observations.
+    series_bodies: Option<HashMap<(String, u32), String>>,
     urls: Rc<RefCell<Vec<String>>>,
 }
 
@@ -106,6 +109,21 @@ impl HttpRequester for FakeHttp {
             .nth(1)
             .and_then(|s| s.get(0..4))
             .and_then(|s| s.parse::<u32>().ok());
+        if let Some(sb) = &self.series_bodies {
+            let series = url
+                .split("/observations/")
+                .nth(1)
+                .and_then(|s| s.split('/').next())
+                .unwrap_or("")
+                .to_string();
+            return match year {
+                Some(y) => Ok(sb
+                    .get(&(series, y))
+                    .cloned()
+                    .unwrap_or_else(|| "{\"observations\": []}".to_string())),
+                None => Err(format!("fake http: cannot tell the year of {url}")),
+            };
+        }
         match year.and_then(|y| self.bodies.get(&y)) {
             Some(b) => Ok(b.clone()),
             None => Err(format!("fake http: no body for {url}")),
@@ -142,8 +160,21 @@ fn make_remote(spec: Option<&Value>, log: &EventLog) -> Box<dyn RemoteRateLoader
                         }
                     }
                 }
+                let series_bodies = s.get("series").and_then(|x| x.as_object()).map(|ser| {
+                    let mut m = HashMap::new();
+                    for (name, ys) in ser {
+                        if let Some(ys) = ys.as_object() {
+                            for (y, b) in ys {
+                                if let (Ok(y), Some(b)) = (y.parse::<u32>(), b.as_str()) {
+                                    m.insert((name.clone(), y), b.to_string());
+                                }
+                            }
+                        }
+                    }
+                    m
+                });
                 let urls = Rc::new(RefCell::new(Vec::new()));
-                Box::new(JsonRemoteRateLoader::new(Box::new(FakeHttp { bodies, urls })))
+                Box::new(JsonRemoteRateLoader::new(Box::new(FakeHttp { bodies, series_bodies, urls })))
             } else {
                 let mut m = HashMap::new();
                 if let Some(ys) = years {
@@ -200,6 +231,8 @@ pub fn run_rates_case(case: &Value) -> Value {
         let (errh, errbuf) = WriteHandle::string_buff_write_handle();
         let inner_cache: Box<dyn RatesCache> = if cache_kind == "csv" {
             Box::new(CsvRatesCache::new(dir.clone().expect("csv cache needs dir"), errh.clone()))
+        } else if cache_kind == "none" {
+            Box::new(InMemoryRatesCache::new())
         } else {
             Box::new(InMemoryRatesCache { rates_by_year: mem.clone() })
         };
